@@ -1,12 +1,12 @@
 #!/usr/bin/env python3
 """one-off helper: writes coq/theories/Props/<P>.v restating lemmas (statement copied from `Check`) so that the property file holds
    only `Theorem ... Proof. exact lemma. Qed. Print Assumptions`.  usage: mkprops.py P "header comment" Imports lemma1 lemma2 ..."""
-import re, subprocess, sys
+import os, re, subprocess, sys
 P, header, imports = sys.argv[1], sys.argv[2], sys.argv[3]
 lemmas = sys.argv[4:]
 src = "From Coq Require Import ZArith NArith String List Bool.\nFrom Cinco Require Import %s.\nImport ListNotations.\nSet Printing Width 100000.\nSet Printing Depth 100000.\n" % imports
 src += "".join("Check %s.\n" % l for l in lemmas)
-out = subprocess.run(["coqtop", "-Q", "theories", "Cinco"], input=src, capture_output=True, text=True, cwd="/verif/coq", timeout=300).stdout + "\nEND\n"
+out = subprocess.run(["coqtop", "-Q", "theories", "Cinco"], input=src, capture_output=True, text=True, cwd=os.path.join(os.path.dirname(os.path.dirname(os.path.abspath(__file__))), "coq"), timeout=300).stdout + "\nEND\n"
 body = "(* Property %s — %s\n   Property theorems only: every statement is proved in the *Lemmas files. *)\nFrom Coq Require Import ZArith NArith String List Bool.\nFrom Cinco Require Import %s.\nImport ListNotations.\n\n" % (P, header, imports)
 for l in lemmas:
     m = re.search(r"(?s)\b%s\s*\n?\s*: (.*?)\n(?=\S)" % re.escape(l), out)
@@ -14,5 +14,5 @@ for l in lemmas:
         sys.exit("no type for " + l + "\n" + out[-2000:])
     ty = " ".join(m.group(1).split())
     body += "Theorem %s_%s :\n  %s.\nProof. exact %s. Qed.\nPrint Assumptions %s_%s.\n\n" % (P, l, ty, l, P, l)
-open("/verif/coq/theories/Props/%s.v" % P, "w").write(body)
+open(os.path.join(os.path.dirname(os.path.dirname(os.path.abspath(__file__))), "coq/theories/Props/%s.v" % P), "w").write(body)
 print("wrote", P, len(lemmas))
